@@ -35,6 +35,8 @@ type c05Case struct {
 	// io.EOF in the same Read; 6 bufio.Reader; 7 an exhausted-then-refilled pipe). What the library must load is what is
 	// still to be read.
 	Readers []int `json:"readers,omitempty"`
+	// NoReaders: the runner is created without any reader at all (no input is not a script)
+	NoReaders bool `json:"no_readers,omitempty"`
 }
 
 type pieceValidity struct {
@@ -82,7 +84,9 @@ const (
 )
 
 func runC05(c c05Case) Verdict {
-	if c.Pieces == nil {
+	if c.NoReaders {
+		c.Pieces = []string{}
+	} else if c.Pieces == nil {
 		c.Pieces = []string{c.Input}
 	}
 	size := 0
@@ -103,7 +107,7 @@ func runC05(c c05Case) Verdict {
 }
 
 func decideC05(c c05Case) Verdict {
-	allValid := true
+	allValid := len(c.Pieces) > 0 // no reader at all: empty input, which is not a script
 	var cls []string
 	lexOnly, parseAny, hasBody := false, false, false
 	for _, p := range c.Pieces {
@@ -414,6 +418,11 @@ func TestC05Catalogue(t *testing.T) {
 					if !yield(c05Case{Pieces: []string{base}, Seed: seed, Kind: "bad seed", Expect: "reject"}) {
 						return
 					}
+				}
+			}
+			for _, seed := range []string{"abc", "", "A"} {
+				if !yield(c05Case{NoReaders: true, Seed: seed, Kind: "no readers", Expect: "reject"}) {
+					return
 				}
 			}
 		})
